@@ -29,6 +29,8 @@ REAL_CODE = ["joblib.memory (Memory, MemorizedFunc, MemorizedResult, expires_aft
 STUBBED = ["scheduling of file-system calls (turn-based controller over pipes)", "time.time/datetime.now/time.sleep "
            "inside the cache code -> simulated clock; rmtree retry sleep is a yield"]
 ASSUMPTIONS = ["each file-system call is atomic; interleaving happens between calls (and between raw write(2)s)",
+               "reduce_size must not raise because of concurrent activity (eviction tolerates vanished entries); Memory.clear() / "
+               "MemorizedFunc.clear() may (two concurrent clears race in delete_folder on the unchanged tree): observation only",
                "construction of Memory / cached wrappers happens in a quiet set-up phase: the statement is about calls",
                "exceptions raised by reduce_size / clear themselves are observations, not verdicts"]
 
@@ -361,6 +363,7 @@ def run_case(case):
             return {"verdict": None, "harness_error": "; ".join(err)[:1500]}
         # ---- oracle
         verdict = None
+        maint = []
         evictors = any(op[0] in ("reduce", "clear", "fclear") for scs in case["actors"] for sc in scs for op in sc)
         for (aid, tid), e in sorted(ents.items()):
             if e["out"] in ("KILLED",):
@@ -372,6 +375,14 @@ def run_case(case):
             for op, tag, val in e["out"]:
                 if verdict is not None:
                     break
+                if op[0] in ("reduce", "clear", "fclear") and tag == "exception":
+                    maint.append((op[0], val[0], val[2][-1][2] if val[2] else None, [f[2] for f in val[2]][-3:]))
+                    if op[0] == "reduce" and verdict is None:
+                        # eviction is documented as tolerant to entries vanishing under its feet (and never raises on the
+                        # unchanged tree); exceptions of clear() -- two concurrent clears race in delete_folder -- stay
+                        # observations
+                        verdict = {"class": "reduce_size_raises", "detail": "actor %d: %s raised %s: %s at %s" % (aid, op, val[0], val[1], val[2]),
+                                   "sig": {"what": "reduce_size_raises", "exc": val[0]}}
                 if op[0] in ("call", "callcb", "shelve"):
                     if tag == "exception":
                         where = val[2][-1][2] if val[2] else None
@@ -426,7 +437,8 @@ def run_case(case):
             faults["actor_killed"] += 1
         return {"verdict": verdict, "digest": h.hexdigest()[:24], "shape": hs.hexdigest()[:16], "steps": nsteps,
                 "switches": switches, "sim_time": 0.0, "faults": dict(faults),
-                "probes": {"preempted_inside_an_operation": interleaved_inside, "final_name_checks": checks[0]},
+                "probes": dict({"preempted_inside_an_operation": interleaved_inside, "final_name_checks": checks[0]},
+                               **{"maintenance_op_raised:%s:%s:%s" % (m[0], m[1], m[2]): 1 for m in maint}),
                 "nontrivial": interleaved_inside >= 2,
                 "sample": {"actors": case["actors"][:3], "strategy": strategy, "grants": nsteps, "killed": killed},
                 "events": [(g,) for g in glog], "log": [str(killed)]}
